@@ -27,3 +27,20 @@ func VerifPEXTGeneric(x, mask uint64) uint64 { return pextGeneric(x, mask) }
 func VerifPDEPActive(x, mask uint64) uint64 { return pdepImpl(x, mask) }
 
 func VerifPEXTActive(x, mask uint64) uint64 { return pextImpl(x, mask) }
+
+var verifSavedPDEP, verifSavedPEXT func(x, mask uint64) uint64
+
+// VerifSelectGeneric makes PDEP and PEXT use the portable routines (on=true)
+// or restores the routines selected at start-up (on=false), so that callers
+// of PDEP/PEXT can be exercised on both CPU paths of one host. Not safe for
+// use concurrently with PDEP/PEXT.
+func VerifSelectGeneric(on bool) {
+	if verifSavedPDEP == nil {
+		verifSavedPDEP, verifSavedPEXT = pdepImpl, pextImpl
+	}
+	if on {
+		pdepImpl, pextImpl = pdepGeneric, pextGeneric
+	} else {
+		pdepImpl, pextImpl = verifSavedPDEP, verifSavedPEXT
+	}
+}
